@@ -1,0 +1,54 @@
+// Copyright (c) Anza Technology, Inc.
+// SPDX-License-Identifier: Apache-2.0
+
+//! Verification hooks: a process-global, append-only event log.
+//!
+//! Only compiled with the `verif-hooks` feature.
+//! Components append events at their linearization points;
+//! the out-of-tree conformance harness drains the log.
+//! Several nodes may live in one process, so every event names its node.
+
+use std::sync::Mutex;
+
+use crate::crypto::merkle::BlockHash;
+use crate::{BlockId, Slot, ValidatorIndex};
+
+/// One recorded event.
+#[derive(Clone, Debug)]
+pub enum VerifEvent {
+    /// Pool of `node` reports `block` as finalized (directly, or implicitly through a descendant).
+    Finalized {
+        node: ValidatorIndex,
+        block: BlockId,
+        implicit: bool,
+    },
+    /// Pool of `node` reports `slot` as implicitly skipped.
+    ImplicitlySkipped { node: ValidatorIndex, slot: Slot },
+    /// Pool of `node` registered `block` with `parent`.
+    Block {
+        node: ValidatorIndex,
+        block: BlockId,
+        parent: BlockId,
+    },
+    /// Pool of `node` now holds a certificate of `kind` for `slot` (and `hash`, if any).
+    CertHeld {
+        node: ValidatorIndex,
+        kind: &'static str,
+        slot: Slot,
+        hash: Option<BlockHash>,
+    },
+    /// Free-form event appended by the harness itself (keeps one total order).
+    Harness(String),
+}
+
+static LOG: Mutex<Vec<VerifEvent>> = Mutex::new(Vec::new());
+
+/// Appends an event to the log.
+pub fn record(event: VerifEvent) {
+    LOG.lock().expect("verif log poisoned").push(event);
+}
+
+/// Removes and returns all events recorded so far, in order.
+pub fn drain() -> Vec<VerifEvent> {
+    std::mem::take(&mut *LOG.lock().expect("verif log poisoned"))
+}
